@@ -507,6 +507,13 @@ func runC07(w *vx.W) {
 			}
 		}
 	}
+	// (2c) long runs: decoded Files of tens of thousands of messages (re-encoded sizes above 64 KiB, slices grown many
+	// times) through the generations
+	for _, l := range []longRun{{0, 0, 2, 4097}, {1, 0, 2, 4097}, {1, 1, 2, 8193}, {3, 6, 7, 4097}, {0, 13, 2, 65537}, {1, 0, 2, 65537}, {2, 5, 2, 4097}} {
+		if st, _, ok := mixStream(l.ops(), true); ok {
+			feed("long-run:"+l.String(), st, "")
+		}
+	}
 	// (3) slot words
 	a13 := c13Alphabet([]byte{0, 1, 3})
 	seqWords(len(a13), 2, func(int64) bool { return true }, func(word []int) bool {
